@@ -95,7 +95,9 @@ func ZZ_C13_S_getValidatorSet() {
 		panic("params")
 	}
 	limit := uint64(zzConcrete(zzInt("cap"), 0, n))
-	p.MaxCommitteeSize, p.MaximumDelegatesPerCommittee = 77, 77
+	// the cap that does NOT apply is arbitrary too (0..n): taking the wrong one must show
+	other := uint64(zzConcrete(zzInt("otherCap"), 0, n))
+	p.MaxCommitteeSize, p.MaximumDelegatesPerCommittee = other, other
 	if delegate {
 		p.MaximumDelegatesPerCommittee = limit
 	} else {
